@@ -16,6 +16,16 @@ fn number(u: Unifiable, ids: &mut HashMap<String, usize>) -> Unifiable {
 
 fn main() {
     let args: Vec<String> = std::env::args().collect();
+    if args[1] == "parse" {
+        for a in &args[2..] {
+            println!("--- {:?}", a);
+            for k in 0..suiron_monitor::props::parse::ENTRY.len() {
+                let r = suiron_monitor::props::parse::call_entry(k, a);
+                println!("   {:18} {:?}", suiron_monitor::props::parse::ENTRY[k], r.map_err(|p| format!("PANIC {} @ {}", p.msg, p.loc)));
+            }
+        }
+        return;
+    }
     let mut ids = HashMap::new();
     let mut ss: Rc<SubstitutionSet> = Rc::new(vec![]);
     for a in &args[2..] {
